@@ -106,15 +106,17 @@ Explains(k, fld, S, sa, D, da) ==
             [] fld = "ports" -> D = {} /\ m.ports = PortsOf(pf, T)
             [] fld = "vols" -> /\ VolsOf(pf, T) \subseteq m.vols
                                /\ (m.vols \ VolsOf(pf, T)) \subseteq (IF D = {} THEN {} ELSE ShapeVols(D))
-            [] fld = "dreq" -> /\ \A p \in D : ~Api.pods[p].ds /\ df[p].ds
+            [] fld = "dreq" -> /\ \A p \in D : ~pf[p].ds /\ df[p].ds
                                /\ m.dreq = ReqAdd(ReqOf(pf, {p \in T : pf[p].ds}), ReqOf(df, D))
-            [] fld = "cost" -> /\ \A p \in D : Api.pods[p].ds /\ ~df[p].ds
+            [] fld = "cost" -> /\ \A p \in D : pf[p].ds /\ ~df[p].ds
                                /\ m.cost = CostOf(pf, T) + SumSet(D, [p \in D |-> Max2(0, EvCost(df[p]))])
-\* candidates for D: pods counted on the node whose name was re-shaped (volumes) / changed daemonset ownership (entries)
-DCand(k, fld) == FPodsOn(Api, k) \cap (IF fld = "vols" THEN st.reshaped ELSE IF fld \in {"dreq", "cost"} THEN st.dsflip ELSE {})
+\* candidates for D: pods counted on the node (really, or as phantoms of S) whose name was re-shaped (volumes) / changed
+\* daemonset ownership (entries) - a tracked predecessor carries along what an earlier replacement left on it
+DCand(k, fld, S) == (FPodsOn(Api, k) \cup S)
+                    \cap (IF fld = "vols" THEN st.reshaped ELSE IF fld \in {"dreq", "cost"} THEN st.dsflip ELSE {})
 Explained(k, fld, needS, needD) ==
     \E S \in SUBSET Unbound : (S # {}) = needS /\ \E sa \in [S -> ShapeNames] :
-    \E D \in SUBSET DCand(k, fld) : (D # {}) = needD /\ \E da \in [D -> ShapeNames] : Explains(k, fld, S, sa, D, da)
+    \E D \in SUBSET DCand(k, fld, S) : (D # {}) = needD /\ \E da \in [D -> ShapeNames] : Explains(k, fld, S, sa, D, da)
 KeptSig(fld) == IF fld = "vols" THEN "volumes-kept-after-same-name-pod-replaced" ELSE "entry-kept-after-daemonset-ownership-change"
 UsageSig(k, fld) ==
     LET f == FS(k)  m == M.sn[k]
